@@ -26,7 +26,7 @@ use d_engine_core::{
     now_ms, ClientCmd, MaybeCloneOneshot, MockBuilder, MockTypeConfig, RaftContext, RaftNodeConfig, RaftOneshot,
 };
 use d_engine_proto::client::raft_client_service_server::RaftClientService;
-use d_engine_server::{EmbeddedClient, Node};
+use d_engine_server::Node;
 use dv::{family_main, fields, rng::Rng};
 use tokio::sync::{mpsc, watch};
 
@@ -99,7 +99,7 @@ fn raft_loop_step(role: &mut Role, ctx: &RaftContext<T>, cmd: ClientCmd) -> Stri
                 (0, 0, 1) => "ev",
                 _ => "none",
             };
-            if q != pol_name(&expected.unwrap()) {
+            if q != pol_name(expected.as_ref().unwrap()) {
                 format!("raft:leader-mismatch-{}-{}", q, pol_name(expected.as_ref().unwrap()))
             } else if probe_rx.try_recv().is_ok() {
                 "raft:leader-answered-at-push".into()
@@ -211,7 +211,7 @@ fn exec(case: &str) -> String {
                             None => return "n/a".to_string(),
                         };
                         let (event_tx, _event_rx) = mpsc::channel(4);
-                        let client = EmbeddedClient::<T>::verif_new(event_tx, cmd_tx.clone(), sm_arc.clone(), lease_arc.clone(), 7, Duration::from_millis(2_000));
+                        let client = Node::<T>::verif_embedded_client(event_tx, cmd_tx.clone(), sm_arc.clone(), lease_arc.clone(), 7, Duration::from_millis(2_000));
                         match client.get_multi_with_consistency(&keys, p).await {
                             Ok(_) => "ok".to_string(),
                             Err(_) => "err".to_string(),
